@@ -185,6 +185,58 @@ func (pgStrategy) PersistEntity(e *pgThing, ctx *boltz.PersistContext) {
 	ctx.SetMap("tags", tags)
 }
 
+// pgAliases: a second set of symbol names for the six stored fields (AddSymbolWithKey / the object stores' map keys):
+// names that contain or end in ZitiQL keywords (asc, desc, by, sort, limit, skip, none, not, in, and, or, contains,
+// between, from, where, null, true, isEmpty), in mixed case, with an underscore, and one quoted identifier that IS a
+// keyword.  Symbol names are opaque to the engine: an alias must behave exactly like the name it stands for.
+var pgAliases = [][2]string{
+	{"shortDesc", "s"},
+	{"sortBy", "s"},
+	{"nota", "s"},
+	{"'desc'", "s"},
+	{"ShortDESC", "s"},
+	{"containsx", "s"},
+	{"idx", "i"},
+	{"inx", "i"},
+	{"limitX", "i"},
+	{"android", "i"},
+	{"iDesc", "i"},
+	{"skipper", "n"},
+	{"basc", "n"},
+	{"ore", "n"},
+	{"byB", "b"},
+	{"nullable", "b"},
+	{"isEmptyB", "b"},
+	{"trueish", "b"},
+	{"fdesc", "f"},
+	{"ascending", "f"},
+	{"noneF", "f"},
+	{"betweenx", "f"},
+	{"descT", "t"},
+	{"fromT", "t"},
+	{"whereabouts", "t"},
+	{"t_desc", "t"},
+}
+
+func pgBaseOf(name string) string {
+	for _, a := range pgAliases {
+		if a[0] == name {
+			return a[1]
+		}
+	}
+	return name
+}
+
+func pgAliasesOf(base string) []string {
+	var out []string
+	for _, a := range pgAliases {
+		if a[1] == base {
+			out = append(out, a[0])
+		}
+	}
+	return out
+}
+
 // pgOwner: the store the fk `things.owner` points to; its fk set symbol `things` is the back-reference
 // list the fk index maintains (GetRelatedEntitiesCursor, OpenSetCursorForQuery).
 type pgOwner struct {
@@ -378,6 +430,10 @@ func pgLoad(ds string) *pgStores {
 	s.things.AddSymbol("f", ast.NodeTypeFloat64)
 	s.things.AddSymbol("s", ast.NodeTypeString)
 	s.things.AddSymbol("t", ast.NodeTypeDatetime)
+	for _, a := range pgAliases {
+		s.things.AddSymbolWithKey(a[0], map[string]ast.NodeType{"b": ast.NodeTypeBool, "i": ast.NodeTypeInt64, "n": ast.NodeTypeInt64,
+			"f": ast.NodeTypeFloat64, "s": ast.NodeTypeString, "t": ast.NodeTypeDatetime}[a[1]], a[1])
+	}
 	s.things.AddSymbolWithKey("a", ast.NodeTypeAnyType, "s")
 	s.things.AddMapSymbol("tags", ast.NodeTypeAnyType, "tags")
 	symRoles := s.things.AddSetSymbol("roles", ast.NodeTypeString)
@@ -499,6 +555,31 @@ func pgLoad(ds string) *pgStores {
 		o.AddInt64Symbol("i", func(e *pgThing) *int64 { return e.I })
 		o.AddStringSymbol("s", func(e *pgThing) *string { return e.S })
 	}
+	// the alias names (map keys of the object store's symbol table) in the stores that declare every field
+	for _, o := range []*objectz.ObjectStore[*pgThing]{s.objs, s.objsNoId} {
+		for _, a := range pgAliases {
+			switch a[1] {
+			case "b":
+				o.AddBoolSymbol(a[0], func(e *pgThing) *bool { return e.B })
+			case "i":
+				o.AddInt64Symbol(a[0], func(e *pgThing) *int64 { return e.I })
+			case "n":
+				o.AddInt64Symbol(a[0], func(e *pgThing) *int64 {
+					if e.N == nil {
+						return nil
+					}
+					v := int64(*e.N)
+					return &v
+				})
+			case "f":
+				o.AddFloat64Symbol(a[0], func(e *pgThing) *float64 { return e.F })
+			case "s":
+				o.AddStringSymbol(a[0], func(e *pgThing) *string { return e.S })
+			case "t":
+				o.AddDatetimeSymbol(a[0], func(e *pgThing) *time.Time { return e.T })
+			}
+		}
+	}
 
 	pgCache, pgCacheKey = s, ds
 	return s
@@ -517,7 +598,7 @@ func pgClose() {
 var pgOpText = map[string]string{"eq": "=", "ne": "!=", "lt": "<", "le": "<=", "gt": ">", "ge": ">="}
 
 func pgConstText(field, tok string) string {
-	switch field {
+	switch pgBaseOf(field) {
 	case "b":
 		if tok == "1" {
 			return "true"
@@ -600,6 +681,12 @@ func pgQueryText(filter, sortTok, skip, limit string) string {
 				fs = append(fs, name+" ASC")
 			case '-':
 				fs = append(fs, name+" DESC")
+			case '^':
+				fs = append(fs, name+" asc")
+			case '*':
+				fs = append(fs, name+" desc")
+			case '!':
+				fs = append(fs, name+" DeSc")
 			default: // '~' : no direction keyword (ascending by default)
 				fs = append(fs, name)
 			}
@@ -750,6 +837,30 @@ func pgGenFilter(r *rng, simpleOnly bool) string {
 	default:
 		return "cmp.t." + pick(r, pgOps) + "." + pick(r, pgTimeConsts)
 	}
+}
+
+// pgAliasFilter: a filter of pgGenFilter with its field renamed to one of the field's aliases
+func pgAliasFilter(r *rng) string {
+	f := strings.Split(pgGenFilter(r, false), ".")
+	if len(f) < 2 || f[1] == "id" {
+		return strings.Join(f, ".")
+	}
+	f[1] = pick(r, pgAliasesOf(f[1]))
+	return strings.Join(f, ".")
+}
+
+// pgGenAliasSort: 1-4 sort fields, mostly alias names, with every spelling of the direction
+func pgGenAliasSort(r *rng) string {
+	n := 1 + r.intn(4)
+	var fs []string
+	for i := 0; i < n; i++ {
+		name := pgAliases[r.intn(len(pgAliases))][0]
+		if r.chance(1, 5) {
+			name = pick(r, pgSortFields)
+		}
+		fs = append(fs, name+pick(r, []string{"~", "~", "~", "+", "-", "^", "*", "!"}))
+	}
+	return strings.Join(fs, ",")
 }
 
 func pgGenSort(r *rng) string {
